@@ -259,17 +259,31 @@ func (fr *Frame) appendBuiltin(in ssa.CallInstruction, c *ssa.CallCommon, args [
 	rArr := ex.sc.Define("append.arr", SInt, mkIte(mkOr(fits, noop), sArr, fresh))
 	rOff := ex.sc.Define("append.off", SInt, mkIte(mkOr(fits, noop), sOff, "0"))
 	rCap := ex.sc.Define("append.rcap", SInt, mkIte(mkOr(fits, noop), sCap, newCap))
-	// element moves, per leaf: new row = old row of target with [off+len, off+len+tLen) taken from t,
-	// and (when reallocating) [0,len) taken from s.
+	// element moves, per leaf (memmove semantics: reads see the pre-state):
+	//   tail   [base, base+tLen)  comes from t, base = rOff+sLen
+	//   prefix [0, sLen)          comes from s when a new array is allocated
+	//   everything else is what the target row held before (zero for a new array)
+	inPlace := mkOr(fits, noop)
+	base := ex.sc.Define("append.base", SInt, mkAdd(rOff, sLen))
 	for _, l := range ptrLocs(&Ptr{Root: "elem", Base: et, Ref: "0", Idx: "0", Elem: et}, et) {
 		a := ex.get(fr.st, l.Key, l.Sort)
-		rowS := mkSelect(a, sArr)
-		rowT := mkSelect(a, tArr)
+		rowS := ex.sc.Define("append.rowS", SArr(SInt, l.Leaf.Sort), mkSelect(a, sArr))
+		rowT := ex.sc.Define("append.rowT", SArr(SInt, l.Leaf.Sort), mkSelect(a, tArr))
 		rowSort := SArr(SInt, l.Leaf.Sort)
 		newRow := ex.sc.Fresh("append.row", rowSort)
-		// definition of the new row by a quantified axiom (memmove semantics: reads see the pre-state)
-		fr.assume(fmt.Sprintf("(forall ((p Int)) (! (= (select %s p) (ite (and (<= (+ %s %s) p) (< p (+ %s %s))) (select %s (+ %s (- p (+ %s %s)))) (ite %s (select %s p) (ite (and (<= 0 p) (< p %s)) (select %s (+ %s p)) %s)))) :pattern ((select %s p))))",
-			newRow, rOff, sLen, rOff, newLen, rowT, tOff, rOff, sLen, mkOr(fits, noop), rowS, sLen, rowS, sOff, zeroLeaf(l.Leaf), newRow))
+		inTail := fmt.Sprintf("(and (<= %s p) (< p %s))", base, mkAdd(base, tLen))
+		other := mkIte(inPlace, mkSelect(rowS, "p"), mkIte(fmt.Sprintf("(and (<= 0 p) (< p %s))", sLen), mkSelect(rowS, ex.sidx(sOff, "p")), zeroLeaf(l.Leaf)))
+		fr.assume(fmt.Sprintf("(forall ((p Int)) (! (= (select %s p) (ite %s (select %s %s) %s)) :pattern ((select %s p))))",
+			newRow, inTail, rowT, ex.sidx(tOff, mkSub("p", base)), other, newRow))
+		// the same facts, triggered from reads of the source rows (absolute positions r)
+		fr.assume(fmt.Sprintf("(forall ((r Int)) (! (=> (and (<= %s r) (< r %s)) (= (select %s %s) (select %s r))) :pattern ((select %s r))))",
+			tOff, mkAdd(tOff, tLen), newRow, mkAdd(base, mkSub("r", tOff)), rowT, rowT))
+		fr.assume(fmt.Sprintf("(forall ((p Int)) (! (=> (and %s (not %s)) (= (select %s p) (select %s p))) :pattern ((select %s p))))",
+			inPlace, inTail, newRow, rowS, rowS))
+		if sLen != "0" {
+			fr.assume(fmt.Sprintf("(forall ((r Int)) (! (=> (and (not %s) (<= %s r) (< r %s)) (= (select %s %s) (select %s r))) :pattern ((select %s r))))",
+				inPlace, sOff, mkAdd(sOff, sLen), newRow, mkSub("r", sOff), rowS, rowS))
+		}
 		ex.set(fr.st, l.Key, l.Sort, mkIte(noop, a, mkStore(a, rArr, newRow)))
 	}
 	return Val{K: VSlice, Fs: []Val{vInt(rArr), vInt(rOff), vInt(newLen), vInt(rCap)}}
